@@ -89,7 +89,7 @@ def probe(rec: core.Recorder, shared: Shared, cid, expected: bool, rng: random.R
     """Compare the library's view of the switch with the context's own shadow value."""
     from physt.config import config
 
-    kind = rng.choice(["read", "read", "add_array", "mul_array", "mul_neg", "div_neg", "idiv_neg", "set_negative", "isub_array", "read", "add_negative", "add_negative_rebinned", "radd_zero_array", "sub_more_missed"])
+    kind = rng.choice(["read", "read", "add_array", "mul_array", "mul_neg", "div_neg", "idiv_neg", "set_negative", "isub_array", "read", "add_negative", "add_negative_rebinned", "scale_negative_operand", "radd_zero_array", "sub_more_missed"])
     with shared.rec_lock:
         rec.mon("C19.probe")
     conflict = shared.conflicting(cid, expected)
@@ -140,6 +140,20 @@ def probe(rec: core.Recorder, shared: Shared, cid, expected: bool, rng: random.R
                     elif kind == "radd_zero_array":
                         # an array on the left of + is an array-like operand too, whatever its values (zeros look like sum()'s start value)
                         rng.choice([np.zeros(1), np.array([0]), np.array(0), np.zeros(3)]) + h
+                    elif kind == "scale_negative_operand":
+                        # a positive factor on contents that are negative already: the result holds negative contents all the same, so it
+                        # exists only where free arithmetics is enabled (refused before anything is touched otherwise)
+                        neg = negative_operand()
+                        how = rng.randrange(4)
+                        if how == 0:
+                            neg / 2
+                        elif how == 1:
+                            neg * 2
+                        elif how == 2:
+                            c_ = neg.copy()
+                            c_ /= 2.0
+                        else:
+                            3 * neg
                     elif kind == "isub_array":
                         h -= np.ones(3) * 5
                     else:
